@@ -1,7 +1,7 @@
 // @inject src/lib.rs
 //! C14 — BOUNDED. The REAL default methods of `DbXxx` (bulk_get, bulk_delete, bulk_put, bulk_put_string,
 //! put_from_iter, *_string) run on a small array-backed map that behaves like the ideal map (the contract
-//! that unit U7 proves for FileDbXxxInner). Bound: at most 3 stored entries, batches of 2 keys, one-byte
+//! that unit U7 proves for FileDbXxxInner). Bound: at most 2 stored entries, batches of 2 or 3 keys, one-byte
 //! keys and values. `sort_unstable_by`, `Vec` and closures are executed by CBMC, not modelled.
 use crate::{DbBytes, DbMapKeyType, DbXxx, DbXxxBase, DbXxxObjectSafe};
 use std::io::Result;
@@ -62,6 +62,13 @@ fn any_tiny() -> Tiny {
     let n: usize = kani::any();
     kani::assume(n <= 1);
     let k: [u8; 3] = kani::any(); let v: [u8; 3] = kani::any();
+    Tiny { n, k, v }
+}
+fn any_tiny2() -> Tiny {
+    let n: usize = kani::any();
+    kani::assume(n <= 2);
+    let k: [u8; 3] = kani::any(); let v: [u8; 3] = kani::any();
+    kani::assume(n < 2 || k[0] != k[1]);
     Tiny { n, k, v }
 }
 fn same(a: &Tiny, b: &Tiny) -> bool {
@@ -126,5 +133,36 @@ fn c14_put_from_iter_applies_in_order_batch_2() {
     m.put_from_iter(items.into_iter()).unwrap();
     m2.put_kt(&DbBytes::from(&[k0][..]), &[v0]).unwrap();
     m2.put_kt(&DbBytes::from(&[k1][..]), &[v1]).unwrap();
+    assert!(same(&m, &m2));
+}
+
+#[kani::proof]
+#[kani::unwind(8)]
+fn c14_bulk_get_is_elementwise_batch_3() {
+    let mut m = any_tiny2();
+    let k0: [u8; 1] = kani::any(); let k1: [u8; 1] = kani::any(); let k2: [u8; 1] = kani::any();
+    let keys: [&[u8]; 3] = [&k0, &k1, &k2];
+    let mut m2 = m;
+    let r = m.bulk_get(&keys).unwrap();
+    assert!(r.len() == 3);
+    assert!(r[0] == m2.get(&k0[..]).unwrap());
+    assert!(r[1] == m2.get(&k1[..]).unwrap());
+    assert!(r[2] == m2.get(&k2[..]).unwrap());
+    assert!(same(&m, &m2));
+}
+
+#[kani::proof]
+#[kani::unwind(8)]
+fn c14_bulk_delete_is_elementwise_batch_3_distinct() {
+    let mut m = any_tiny2();
+    let k0: [u8; 1] = kani::any(); let k1: [u8; 1] = kani::any(); let k2: [u8; 1] = kani::any();
+    kani::assume(k0[0] != k1[0] && k0[0] != k2[0] && k1[0] != k2[0]);
+    let keys: [&[u8]; 3] = [&k0, &k1, &k2];
+    let mut m2 = m;
+    let r = m.bulk_delete(&keys).unwrap();
+    let e0 = m2.delete(&k0[..]).unwrap();
+    let e1 = m2.delete(&k1[..]).unwrap();
+    let e2 = m2.delete(&k2[..]).unwrap();
+    assert!(r.len() == 3 && r[0] == e0 && r[1] == e1 && r[2] == e2);
     assert!(same(&m, &m2));
 }
